@@ -120,6 +120,9 @@ def run(ctx):
             t = Tree(parents, a)
             pats = patterns_for(t, "<box>")
             psets = [[]] + [[p] for p in pats]
+            if quick and any(c not in ("one", "two", "mixedcase", "dots", "stemorder", "indexfile", "upperonly", "casepair", "empty", "txt")
+                             for c in a):
+                psets = [[]]      # quick: the remaining content classes are crossed with patterns in the thorough tier only
             if not quick and n <= 3:
                 psets += [list(c) for c in itertools.combinations(pats, 2)]
             for ps in psets:
